@@ -741,7 +741,12 @@ func (b *Body) rangeInstr(x *ssa.Range, st State) {
 	j, k := fmt.Sprintf("j!%d", ft.count("qv")), fmt.Sprintf("k!%d", ft.count("qv"))
 	ft.fact(Forall([][2]string{{j, "Int"}}, Imp(And(A("<=", Int(0), L(j)), A("<", L(j), n)), Sel(mk, Sel(keys, L(j)))), []*T{Sel(keys, L(j))}))
 	ft.fact(Forall([][2]string{{j, "Int"}, {k, "Int"}}, Imp(And(A("<=", Int(0), L(j)), A("<", L(j), L(k)), A("<", L(k), n)), Not(Eq(Sel(keys, L(j)), Sel(keys, L(k))))), []*T{Sel(keys, L(j)), Sel(keys, L(k))}))
-	// the fold axiom over this enumeration (used with mapsum spec functions)
+	// the fold of this enumeration equals the enumeration-independent sum
+	if ks == "Str" && vs == "Int" {
+		mvv := Sel(ft.region(st, "MV."+ks+"->"+vs), mv.T)
+		ft.fact(Eq(A("esum.str", keys, mvv, n), A("mapsum.str", mk, mvv)))
+		ft.trusted["A-FOLD: the sum over a map is independent of the iteration order (esum.str = mapsum.str for the loop's enumeration)"] = true
+	}
 	ft.mapEnums = append(ft.mapEnums, b.iterInfo[x])
 }
 
